@@ -15,6 +15,9 @@ type Node struct {
 	Assert bool    `json:"assert,omitempty"`
 	Spread bool    `json:"spread,omitempty"`
 	Kids   []*Node `json:"kids,omitempty"`
+	// token span (indices into the token list), set by ParseTokens only
+	F int `json:"-"`
+	L int `json:"-"`
 }
 
 // Dump is the position-free canonical form shared with obs.Dump.
